@@ -16,7 +16,9 @@ func init() {
 		about: "C14 (MVS minimal, sufficient, order/schedule independent): decides the schedule-independence mechanisms. (a) In the closures run concurrently by mvs.buildList and modrequirements.readModGraph every captured variable that is written is accessed only under a common mutex (lockset + capture analysis). " +
 			"(b) In the buildList closure every path to its exit passes through the loop that work.Add()s each element of the very slice handed to g.Require (upgrade included). " +
 			"(c) par.Work fields are accessed only under w.mu; par.Cache results are written under the entry lock before done is set and read only after done was observed; par.Queue's state channel is received/sent pairwise on every path. " +
-			"(d) Graph.Require only raises the selected version (guard cmp(selected, dep) < 0) and Graph.BuildList sorts what it collected from the map before returning. It does not decide minimality/sufficiency of the versions nor SemVer precedence (value-level).",
+			"(d) Graph.Require only raises the selected version (guard cmp(selected, dep) < 0) and Graph.BuildList sorts what it collected from the map before returning. " +
+			"(e) Version ordering, by finite case analysis: for each comparator (modrequirements.cmpVersion, module.Versions.Max, semver.Compare, compareInt, comparePrerelease) the set of results reachable on each input class defined by the comparator's own tests equals the row the property prescribes (main module's empty version highest and symmetric, \"none\" lowest, invalid below valid, major/minor/patch then pre-release, build ignored, release above pre-release, numeric below alphanumeric, numeric by length then digits, shorter identifier list lower); parsePrerelease/parseBuild apply the same validity tests to the last identifier as to those ended by a dot. " +
+			"It does not decide minimality/sufficiency of the selected versions nor the character loops parseInt/nextIdent/isNum (value-level).",
 		trust: []string{"sync.Mutex, sync.Cond, sync.Map, atomic.Bool semantics"},
 	})
 }
